@@ -157,9 +157,9 @@ theorem conversion_reads_latest (w : World) (name : String) (e : Entry) (ops : L
   simp [this, readConv, register, lookup]
 
 example : runW ⟨[], [⟨"StateVector", "TEME", "cartesian", [1, 2, 3, 4, 5, 6]⟩]⟩
-      [Op.reg "f" ⟨"QSW", 0⟩, Op.conv "f", Op.conv "f"]
-    = [some (⟨"QSW", 0⟩, some ⟨"StateVector", "TEME", "cartesian", [1, 2, 3, 4, 5, 6]⟩),
-       some (⟨"QSW", 0⟩, some ⟨"StateVector", "TEME", "cartesian", [1, 2, 3, 4, 5, 6]⟩)] := by decide
+      [Op.reg "f" ⟨"QSW", 0, 0⟩, Op.conv "f", Op.conv "f"]
+    = [some (⟨"QSW", 0, 0⟩, some ⟨"StateVector", "TEME", "cartesian", [1, 2, 3, 4, 5, 6]⟩),
+       some (⟨"QSW", 0, 0⟩, some ⟨"StateVector", "TEME", "cartesian", [1, 2, 3, 4, 5, 6]⟩)] := by decide
 
 end world
 
